@@ -1060,11 +1060,15 @@ def fail_events(model: TopoModel):
     ev.append(('fail', 'node-unknown-property'))
     ev.append(('fail', 'facility-bad-interface-property'))
     ev.append(('fail', 'facility-colliding-ids'))
+    ev.append(('fail', 'facility-duplicate-interface-names'))
     ev.append(('fail', 'switch-bad-port-property'))
     ev.append(('fail', 'service-no-type'))
     ev.append(('fail', 'service-bad-property'))
     if names:
         n0 = names[0]
+        ev.append(('fail', 'type-outside-vocabulary', n0))
+        if free:
+            ev.append(('fail', 'link-non-interface', n0, model._pref(free[0])))
         ev.append(('fail', 'node-duplicate-name', n0))
         ev.append(('fail', 'node-duplicate-id', nodes[n0].node_id))
         ev.append(('fail', 'facility-duplicate-name', n0))
@@ -1128,6 +1132,10 @@ def fail_events(model: TopoModel):
             if i.type == InterfaceType.SharedPort:
                 ev.append(('fail', 'sub-on-shared-port', (nn, i.name)))
                 break
+        for nn, i in allp:
+            if i.type == InterfaceType.DedicatedPort and 'subD' not in {x.name for x in i.interface_list}:
+                ev.append(('fail', 'sub-duplicate-via-second-handle', (nn, i.name)))
+                break
     else:
         fp = [model._pref(p) for p in free]
         if fp:
@@ -1141,6 +1149,8 @@ def fail_events(model: TopoModel):
             ev.append(('fail', 'link-duplicate-name', links[0], tuple(fp[:2])))
         if names:
             ev.append(('fail', 'sub-node-without-id'))
+        if 'sw' in names and nodes['sw'].network_services:
+            ev.append(('fail', 'sub-service-interface-twice-one-handle', 'sw'))
         servers = [n for n in names if nodes[n].type == NodeType.Server]
         for w in servers[:1]:
             taken = nodes[w].node_id
@@ -1274,6 +1284,23 @@ def _do_fail(model: TopoModel, ev):
         t.add_link(name=ev[2], node_id='id-lx', ltype=LinkType.Patch, interfaces=[model.port(*r) for r in ev[3]])
     elif kind == 'sub-node-without-id':
         t.add_node(name='nx', site='S1', ntype=NodeType.Server)
+    elif kind == 'facility-duplicate-interface-names':
+        t.add_facility(name='fdup', site='S1', node_id=nid('fdup'),
+                       interfaces=[('same', Labels(vlan='1'), Capacities(bw=1)), ('same', Labels(vlan='2'), Capacities(bw=1))])
+    elif kind == 'type-outside-vocabulary':
+        model.node(ev[2]).set_property('type', 'Garbage')
+    elif kind == 'link-non-interface':
+        t.add_link(name='lnode', node_id=nid('lnode'), ltype=LinkType.Patch, interfaces=[model.node(ev[2]), model.port(*ev[3])])
+    elif kind == 'sub-duplicate-via-second-handle':
+        h1, h2 = model.port(*ev[2]), model.port(*ev[2])
+        h1.add_child_interface(name='subD', node_id=nid('subD-1'), labels=Labels(vlan='310'))
+        model._prefix_ok = True
+        h2.add_child_interface(name='subD', node_id=nid('subD-2'), labels=Labels(vlan='311'))
+    elif kind == 'sub-service-interface-twice-one-handle':
+        sf = list(model.node(ev[2]).network_services.values())[0]
+        sf.add_interface(name='twice', node_id='id-twice-1', itype=InterfaceType.TrunkPort)
+        model._prefix_ok = True
+        sf.add_interface(name='twice', node_id='id-twice-2', itype=InterfaceType.TrunkPort)
     elif kind == 'sub-component':
         _, _, w, why, taken = ev
         args = dict(name='nicx', node_id='id-nicx', model_type=ComponentModelType.SmartNIC_ConnectX_6,
@@ -1346,7 +1373,9 @@ def _events_with_probes(self):
 
 GUARD_PROBES = {'node-duplicate-name', 'node-duplicate-id', 'facility-duplicate-name', 'switch-duplicate-name',
                 'service-duplicate-id', 'service-duplicate-name', 'component-duplicate-name', 'component-duplicate-id',
-                'storage-duplicate-name', 'sub-duplicate-name', 'sub-duplicate-vlan', 'peer-twice', 'link-duplicate-name'}
+                'storage-duplicate-name', 'sub-duplicate-name', 'sub-duplicate-vlan', 'peer-twice', 'link-duplicate-name',
+                'facility-duplicate-interface-names', 'type-outside-vocabulary', 'link-non-interface',
+                'sub-duplicate-via-second-handle', 'sub-service-interface-twice-one-handle'}
 
 
 def _apply(self, ev):
@@ -1403,6 +1432,11 @@ def _after_prefix(self, ev):
     self.restore(self._pre_snap)
     if ev[1] == 'peer-twice':
         self.service(ev[2]).peer(self.service(ev[3]))
+    elif ev[1] == 'sub-duplicate-via-second-handle':
+        sub = self.flavour != 'exp'
+        self.port(*ev[2]).add_child_interface(name='subD', node_id='id-subD-1' if sub else None, labels=Labels(vlan='310'))
+    elif ev[1] == 'sub-service-interface-twice-one-handle':
+        list(self.node(ev[2]).network_services.values())[0].add_interface(name='twice', node_id='id-twice-1', itype=InterfaceType.TrunkPort)
     else:
         stale = self.port(*ev[5])
         _remove_owner_of(self, stale)
